@@ -165,6 +165,13 @@ def gen_C17(g, tier):
             else:
                 cs.append(Case('cli.run reject @ %s # %s' % (' '.join(argv), num_table(argv)), 'cmp', 'stokes-rejected'))
                 cs.append(Case('cli.exec reject @ %s' % ' '.join(argv), 'orc', 'stokes-rejected', check=exec_check(255, None)))
+    # an inadmissible vector is refused even when a later -s for the same mode (or -h, or anything else) follows it
+    for _ in range(6 if tier == 'quick' else 60):
+        bad = g.choice(STOKES_BAD); good = g.choice([x for x in STOKES_OK if x != '0,0,0,0']); pre = g.choice(['', 'B'])
+        for argv in (['-N', '0.001k', '-S', '-s', pre + bad, '-s', pre + good], ['-s', pre + bad, '-n', '2', '-s', pre + good, '-N', '0.001k'],
+                     ['-S', '-s', pre + good, '-s', pre + bad, '-s', pre + good, '-N', '0.001k'], ['-s', pre + bad, '-h']):
+            cs.append(Case('cli.run reject @ %s # %s' % (' '.join(argv), num_table(argv)), 'cmp', 'stokes-rejected-then-overridden'))
+            cs.append(Case('cli.exec reject @ %s' % ' '.join(argv), 'orc', 'stokes-rejected-then-overridden', check=exec_check(255, None)))
     cs.append(Case('cli.run parse-error @ -s 1,2,3 # 1=%s 2=%s 3=%s' % (dhex(1.0), dhex(2.0), dhex(3.0)), 'cmp', 'parse-error'))
     cs.append(Case('cli.exec parse-error @ -s 1,2,3', 'orc', 'parse-error', check=exec_check(255, None)))
     cs.append(Case('cli.run usage @ -h #', 'cmp', 'usage'))
